@@ -307,3 +307,5 @@ func (b *pedBackend) dealerSecretCommitOK() (bool, bool) {
 	want := b.suite.Point().Mul(big2sc(b.suite, b.q, b.sec), nil)
 	return true, sc.Equal(want) && b.dealer.Commits()[0].Equal(want)
 }
+
+func (b *pedBackend) contentSID(d *mdeal) []byte { return vssContentSID(b.suite, b.dpub, b.vpubs, d) }
